@@ -21,19 +21,28 @@ def warns(r):
     return [e for e in r.st.log if e[0] == "warn"]
 
 
+_H = load.exception_hierarchy()
+LIQUID_ERRORS = sorted(n for n, anc in _H.items() if "LiquidError" in anc and "LiquidInterrupt" not in anc and n != "LiquidInterrupt")
+
+
+def _lookup_warning(eng, st, args, kwargs):
+    """callee contract of exceptions.lookup_warning: total -- a warning class for every error class"""
+    return [(st, VConst(("warning-class",)))]
+
+
 def _error_contract(target, mk_self, label):
-    for m in MODES:
-        def _mk(m):
-            @contract(target, prop="C03", name=f"{label}[{m}]")
+    for m, cls in [(m, cls) for m in MODES for cls in (LIQUID_ERRORS if m == "WARN" else ["LiquidSyntaxError", "UndefinedError"])]:
+        def _mk(m, cls):
+            @contract(target, prop="C03", name=f"{label}[{m},{cls}]")
             def err(c):
                 self = mk_self(c, m)
-                c.summary("liquid.exceptions:lookup_warning", lambda eng, st, a, k: [(st, VConst(("warning-class",)))])
-                exc = VExc("LiquidSyntaxError", (c.str("msg"),))
+                c.summary("liquid.exceptions:lookup_warning", _lookup_warning)
+                exc = VExc(cls, (c.str("msg"),))
                 c.call(exc, self_val=self)
                 if m == "STRICT":
-                    c.raises("LiquidSyntaxError")
+                    c.raises(cls)
                     c.ensures("strict-always-raises", lambda r: z3.BoolVal(False))
-                    c.ensures_exc("raises-the-error-and-emits-no-warning", lambda r: z3.BoolVal(r.exc.cls == "LiquidSyntaxError" and not warns(r)))
+                    c.ensures_exc("raises-the-error-and-emits-no-warning", lambda r: z3.BoolVal(r.exc.cls == cls and not warns(r)))
                 elif m == "WARN":
                     c.raises()
                     c.ensures("exactly-one-warning-no-raise", lambda r: z3.BoolVal(len(warns(r)) == 1))
@@ -41,7 +50,7 @@ def _error_contract(target, mk_self, label):
                     c.raises()
                     c.ensures("silently-ignored", lambda r: z3.BoolVal(len(warns(r)) == 0))
                 c.replay("code", code=REPLAY)
-        _mk(m)
+        _mk(m, cls)
 
 
 _error_contract(ENV + ".error", lambda c, m: c.obj(ENV, "env", mode=mode_val(m)), "Environment.error")
@@ -93,9 +102,9 @@ def _node_render(eng, st, args, kwargs):
 
 
 for _m in MODES:
-    for _partial, _bs in ((False, False), (True, False), (True, True)):
-        def _mk(m, partial, bs):
-            @contract(TEMPLATE + ".render_with_context", prop="C03", name=f"render_with_context[{m},partial={partial},block_scope={bs}]")
+    for _partial, _bs, _suffix in [(p, b, s) for p, b in ((False, False), (True, False), (True, True)) for s in ("", "_async")]:
+        def _mk(m, partial, bs, suffix=_suffix):
+            @contract(TEMPLATE + ".render_with_context" + suffix, prop="C03", name=f"render_with_context{suffix}[{m},partial={partial},block_scope={bs}]")
             def rwc(c):
                 env = mk_env(c, mode=mode_val(m))
                 ctx = mk_ctx(c, env)
@@ -103,9 +112,9 @@ for _m in MODES:
                 nodes = c.list("nodes")
                 t = c.obj(TEMPLATE, "template", env=env, nodes=nodes)
                 buf = c.obj("io:StringIO", "buffer", __text__=c.str("out"))
-                c.summary("liquid.ast:Node.render", _node_render)
-                for n in ("liquid.ast:Node",):
-                    pass
+                c.summary("liquid.ast:Node.render" + suffix, _node_render)
+                if suffix:
+                    c.assume_note("await is erased: awaiting a coroutine is treated as calling it (DESIGN 3, shared with C01)")
                 def node_elem(st, term):
                     return st.alloc(HObj(("liquid.ast", "Node"), {"token": NONE}, {}, "node"))
                 c.invariant(0, lambda e: z3.BoolVal(True), havoc_heap=lambda st: [], elem=node_elem)
